@@ -32,7 +32,9 @@ RULE = (
     'closing tag removed, end tag mismatched, attribute written twice, file truncated, seven '
     'header faults; oracle: load raises, add raises and the raw table dump is unchanged (database '
     'empty or holding an unrelated lexicon), is_lmf false for header faults and true for body '
-    'faults; 16 further header spellings: is_lmf false => load and add raise, is_lmf true => '
+    'faults (the mutants of one document are successive edits of one path, the intact '
+    'document first; sites inside a LexiconExtension are kinds of their own); 16 further '
+    'header spellings: is_lmf false => load and add raise, is_lmf true => '
     'the whole valid oracle. The enumerated subcheck applies every class at every position of '
     'generated documents. The bytes subcheck feeds raw bytes (valid documents, byte edits and, in '
     'the thorough tier, an atheris/libFuzzer campaign of 10000 executions per shard) to the '
@@ -172,6 +174,13 @@ def _mutant_cases(draw, n_mutations=6):
                        else lmfmut.HEADER_VARIANTS)
             muts.append({'class': draw(st.sampled_from(classes)), 'kind': None, 'pos': 0,
                          'arg': draw(st.integers(0, 11))})
+    ext_kinds = [k for k in avail.get('attr-removed', []) if k and k.endswith('~ext')]
+    if ext_kinds and draw(st.booleans()):
+        # sites inside a LexiconExtension are rare among all sites: aim one mutation at them
+        wf = [k for k in ext_kinds if 'writtenForm' in k]     # new words of the extension
+        pool = wf if wf and draw(st.booleans()) else ext_kinds
+        muts[-1] = {'class': 'attr-removed', 'kind': draw(st.sampled_from(pool)),
+                    'pos': draw(st.integers(0, 9999)), 'arg': draw(st.integers(0, 41))}
     return {'resource': res, 'style': style, 'mutations': muts,
             'db': draw(st.sampled_from(['empty', 'unrelated']))}
 
@@ -482,6 +491,11 @@ def mutant_oracle(case):
     except Exception as exc:  # noqa: BLE001
         return [Disc('valid-file-rejected-by-load', 'document', 'accepted', _exc(exc))]
     out: list[Disc] = []
+    # the mutants are successive edits of one file: every probe of that path has to look at
+    # what the file holds now
+    (d / 'doc.xml').write_bytes(orig)
+    if lmf.is_lmf(d / 'doc.xml') is not True:
+        out.append(Disc('is_lmf-false-with-valid-header', 'document', True, False))
     for k, mut in enumerate(case['mutations']):
         _one_mutant(case, k, mut, orig, d, out)
     return out
@@ -499,7 +513,7 @@ def _one_mutant(case, k, mut, orig, d, out):
         raise env.HarnessError(f'mutant well-formedness is not {built.wellformed}: {mut} '
                                f'{built.what}')
     where = built.cls
-    f = d / f'mutant{k}.xml'
+    f = d / 'doc.xml'
     f.write_bytes(built.data)
     # alternate the database state over the mutants of one document
     dbstate = case['db'] if k % 2 == 0 else ('empty' if case['db'] == 'unrelated'
@@ -832,7 +846,8 @@ SUBS = [
             'group:header-fault', 'group:header-variant',
             'site:child-duplicated:Lemma', 'site:child-duplicated:ILIDefinition',
             'site:child-duplicated:Extends', 'site:attr-removed:Lexicon@id',
-            'site:attr-removed:Sense@synset')),
+            'site:attr-removed:Sense@synset', 'site:attr-removed:Lemma@writtenForm~ext',
+            'site:attr-removed:Synset@id~ext')),
     Sub('mutants-every-position', mutant_oracle, _classify_mutant,
         enumerate=_enumerate_positions,
         exhaustive_note='every mutation class at every site (truncation: every byte of the '
